@@ -240,6 +240,12 @@ def run(ctx):
                 lit = n["recv"]["v"]["str"]
                 ws = [m for m in walk(n["args"][0]) if m.get("callee") and "unicode_width::UnicodeWidth" in m["callee"]["path"]]
                 if not ws:
+                    # a run of blanks / markers sized from a piece of the line without measuring its display width (seed C14-8:
+                    # `" ".repeat(line.former.chars().count())`)
+                    pieces_ = [x["name"] for x in walk(n["args"][0]) if x["k"] == "field" and x["name"] in ("former", "middle", "latter")]
+                    if pieces_:
+                        rmc.violate("%s: %r.repeat(..)" % (fid.rsplit("::", 1)[-1], lit), "is sized from `%s` without the display-width function: "
+                                    "columns are display cells, not characters or bytes" % pieces_[0], c.loc(n.get("sp")))
                     continue
                 fields = [x["name"] for x in walk(ws[0]) if x["k"] == "field" and x["name"] in ("former", "middle", "latter")]
                 want = "former" if lit.strip() == "" else "middle"
@@ -269,7 +275,7 @@ def run(ctx):
                     rmc.inst(key, c.loc(n.get("sp")), "ok", {"measures": want})
                 else:
                     rmc.violate(key, "measures %s, expected the `%s` part of the line" % (fields or "something else", want), c.loc(n.get("sp")))
-    rmc.require(5, "repeat sites")
+    rmc.require(3, "repeat sites")        # 5 today
 
     # which piece is which: `former` is what precedes the marked column(s), `middle` the marked part, `latter` the rest
     rsp_ = ctx.rule("R14-SPLIT", "Partition / Partition2 cut the line at the given column(s): former = text before the (first) column, middle = "
